@@ -241,6 +241,24 @@ var _ = reserr.ErrAccessDenied
 //@   trusted
 //@   requires w != nil
 
+//@ immutable Service.enc
+
+// Creating a connection is not verified here (C20 covers the refusal while stopping).
+//@ func (*Service).newWSConn
+//@   trusted
+//@   ensures result != nil ==> predConnOK(result) && !result.disposing && result.subs != nil && result.serv == s
+
+// The HTTP response step: every exit disposes the temporary connection; a service error is
+// answered with its fixed status, where only PUT, DELETE and PATCH turn system.methodNotFound
+// into system.methodNotAllowed.
+//@ closure (*Service).temporaryConn#1
+//@   requires s != nil && w != nil && r != nil && predConnOK(c) && s.enc != nil
+//@   assumes predSubsOK(c) && c.serv.conns != nil && (err != nil ==> reserr.predErrOK(err))
+//@   ensures[C11] c.disposing
+//@   assert[C17] httpError#2: arg1 == old(err) || (typeis(old(err), *reserr.Error) && old(err).(*reserr.Error).Code == "system.methodNotFound" &&
+//@       (r.Method == "PUT" || r.Method == "DELETE" || r.Method == "PATCH") && arg1 == reserr.ErrMethodNotAllowed)
+//@   safety[C15]
+
 // --- late answers and disposal (C11) ---
 
 //@ func (*Subscription).setResource
